@@ -645,13 +645,32 @@ pub fn eval_ref_plain(p: &Program) -> Option<RefRun<f64>> {
 }
 
 /// Run the program on the real library. Returns every node's handle.
+thread_local! {
+    /// how `eval_corgi` gives leaves their tracking state: false - by value at creation (`arr.tracked()` / plain);
+    /// true - by reference afterwards (plain then `start_tracking()`; `tracked()` then `stop_tracking()`)
+    pub static LEAF_FLAGS_BY_REFERENCE: std::cell::Cell<bool> = std::cell::Cell::new(false);
+}
+pub fn leaf_flags_by_reference(on: bool) {
+    LEAF_FLAGS_BY_REFERENCE.with(|c| c.set(on));
+}
+
 pub fn eval_corgi(p: &Program) -> Vec<Array> {
     let mut v: Vec<Array> = Vec::with_capacity(p.nodes.len());
+    let by_ref = LEAF_FLAGS_BY_REFERENCE.with(|c| c.get());
     for (i, n) in p.nodes.iter().enumerate() {
         let a = match n {
             Node::Leaf { dims, vals, tracked } => {
                 let a = arr(dims, vals);
-                if *tracked {
+                if by_ref {
+                    if *tracked {
+                        a.start_tracking();
+                        a
+                    } else {
+                        let a = a.tracked();
+                        a.stop_tracking();
+                        a
+                    }
+                } else if *tracked {
                     a.tracked()
                 } else {
                     a
